@@ -209,3 +209,24 @@ def get_fixture_facts(root="/repo"):
     finally:
         fcntl.flock(lock, fcntl.LOCK_UN)
         lock.close()
+
+
+def src_digest(root="/repo"):
+    """sha256 over the crate's sources and manifest: tells the pinned tree (for which the instance floors were counted)
+    from a modified one."""
+    import hashlib
+    h = hashlib.sha256()
+    files = []
+    for base, dirs, fs in os.walk(os.path.join(root, "src")):
+        dirs.sort()
+        for f in sorted(fs):
+            if f.endswith(".rs"):
+                files.append(os.path.join(base, f))
+    files.append(os.path.join(root, "Cargo.toml"))
+    for f in sorted(files):
+        try:
+            with open(f, "rb") as fh:
+                h.update(os.path.relpath(f, root).encode() + b"\0" + fh.read() + b"\0")
+        except OSError:
+            pass
+    return h.hexdigest()
